@@ -16,7 +16,13 @@ pub enum Ty {
     StRef,
     StB,
     Generic,
+    OptStd,
+    OptAbsStd,
+    OptAbsCore,
+    OptCore,
 }
+/// other ways of writing `Option` in a declaration
+pub const OPT_SPELLINGS: [Ty; 4] = [Ty::OptStd, Ty::OptAbsStd, Ty::OptAbsCore, Ty::OptCore];
 pub const TYS: [Ty; 11] = [Ty::U32, Ty::F64, Ty::Bool, Ty::Str, Ty::OptStr, Ty::OptI64, Ty::Bytes, Ty::Strs, Ty::StRef, Ty::StB, Ty::Generic];
 
 impl Ty {
@@ -35,10 +41,14 @@ impl Ty {
             Ty::StRef => format!("&{lt}St"),
             Ty::StB => if explicit { "StB<'a>".into() } else { "StB<'_>".into() },
             Ty::Generic => generic_name.into(),
+            Ty::OptStd => "std::option::Option<i64>".into(),
+            Ty::OptAbsStd => format!("::std::option::Option<&{lt}str>"),
+            Ty::OptAbsCore => "::core::option::Option<u32>".into(),
+            Ty::OptCore => "core::option::Option<bool>".into(),
         }
     }
     fn has_lifetime(self) -> bool {
-        matches!(self, Ty::Str | Ty::OptStr | Ty::Bytes | Ty::Strs | Ty::StRef | Ty::StB)
+        matches!(self, Ty::Str | Ty::OptStr | Ty::Bytes | Ty::Strs | Ty::StRef | Ty::StB | Ty::OptAbsStd)
     }
     /// (Rust expression, JSON expression or None = the argument is omitted on the wire)
     fn values(self) -> Vec<(&'static str, Option<&'static str>)> {
@@ -54,6 +64,10 @@ impl Ty {
             Ty::StRef => vec![("&ST1", Some("{\"a\": 1, \"b\": \"x\"}"))],
             Ty::StB => vec![("StB { s: \"y\" }", Some("{\"s\": \"y\"}"))],
             Ty::Generic => vec![("7u8", Some("7")), ("\"gen\"", Some("\"gen\""))],
+            Ty::OptStd => vec![("None", None), ("Some(-5i64)", Some("-5"))],
+            Ty::OptAbsStd => vec![("None", None), ("Some(\"x\")", Some("\"x\""))],
+            Ty::OptAbsCore => vec![("None", None), ("Some(9u32)", Some("9"))],
+            Ty::OptCore => vec![("None", None), ("Some(true)", Some("true"))],
         }
     }
 }
@@ -152,6 +166,19 @@ pub fn methods(thorough: bool) -> Vec<Method> {
                 params.push((special[(si + 1) % special.len()].to_string(), Ty::Bool, None));
             }
             out.push(Method { rust_name: format!("sp_{n}"), rename: None, params, explicit_lifetimes: false, kind, out: if kind == Kind::Oneway { Out::Unit } else { outs[n % 3] } });
+        }
+    }
+    // `Option` written with a path (as macro- or tool-generated declarations do): still an optional argument
+    for (oi, o) in OPT_SPELLINGS.iter().enumerate() {
+        for v in 0..3 {
+            let n = k;
+            k += 1;
+            let kind = kinds[(oi + v) % 3];
+            let mut params = vec![(PNAMES[(oi + v) % PNAMES.len()].to_string(), *o, if v == 2 { Some("wire-Name".to_string()) } else { None })];
+            if v >= 1 {
+                params.push(("second".to_string(), OPT_SPELLINGS[(oi + 1) % OPT_SPELLINGS.len()], None));
+            }
+            out.push(Method { rust_name: format!("opt_{n}"), rename: None, params, explicit_lifetimes: false, kind, out: if kind == Kind::Oneway { Out::Unit } else { outs[n % 3] } });
         }
     }
     // arguments spelled as raw identifiers: the name is the identifier without its `r#` prefix
